@@ -2,10 +2,10 @@
    Only statements, closed by [exact lemma], with Print Assumptions beneath. *)
 From Coq Require Import String List NArith Bool Permutation.
 From J5V.lib Require Import Outcome.
-From J5V.model Require Import Pipeline PipelineCompile PipelineEntity PipelineCorr.
+From J5V.model Require Import Pipeline PipelineCompile PipelineEntity PipelineValid PipelineCorr.
 From J5V.gen Require SwaggerGen.
 From J5V.lib Require Strcase.
-From J5V.proofs Require Import PipelineProofs PipelineStrcaseProofs StrcaseProofs PipelineChainProofs PipelinePathProofs PipelineEntityProofs.
+From J5V.proofs Require Import PipelineProofs PipelineStrcaseProofs StrcaseProofs PipelineChainProofs PipelinePathProofs PipelineEntityProofs PipelineValidProofs.
 Import ListNotations.
 Local Open Scope N_scope.
 
@@ -37,6 +37,14 @@ Theorem C16_full : C16_full_statement.
 Proof. exact chain_full. Qed.
 Print Assumptions C16_full.
 
+
+
+(* the hypothesis of C16_full as a computable test: the compile-image stream evaluates it (with the model of
+   iancoleman/strcase ToSnake) on every generated package the real compiler accepted that has no entity and
+   no deliberately awkward property names, so each of them is inside C16_full *)
+Theorem C16_valid_test_sound : forall to_snake P, valid_package_b to_snake P = true -> valid_package to_snake P.
+Proof. exact valid_package_b_sound. Qed.
+Print Assumptions C16_valid_test_sound.
 
 (* ... instantiated with the byte-exact model of iancoleman/strcase ToSnake: the hypotheses on ToSnake are
    replaced by a condition on the request's property names (lowerCamel: letters, no two adjacent capitals);
@@ -117,7 +125,7 @@ Print Assumptions C16_walk_source_schemas_total.
 Theorem C16_entity_roots_closed : forall (im : image) (ms : list client_method) ks r s k x,
   collect_refs im ms = Ok ks ->
   In r (im_roots im) -> lookup (im_schemas im) r = Some s -> In k (succs s) ->
-  present (im_schemas im) k -> reach (im_schemas im) k x -> present (im_schemas im) x ->
+  present (cenv (im_schemas im)) k -> reach (cenv (im_schemas im)) k x -> present (cenv (im_schemas im)) x ->
   In x ks.
 Proof. exact entity_roots_closed. Qed.
 Print Assumptions C16_entity_roots_closed.
@@ -130,7 +138,7 @@ Theorem C16_chain_with_entities_partial : forall im anns api ms,
   add_structure (im_services im) {| sa_services := []; sa_topics := [] |} = Ok api ->
   wf_anns anns ->
   (forall es, walk_source_schemas anns = Ok es -> exists evs, omapM (entity_events (im_schemas im)) es = Ok evs) ->
-  all_refs_link (im_schemas im) = true -> wf_env (im_schemas im) ->
+  all_refs_link (im_schemas im) = true -> wf_env (im_schemas im) -> flat_free (im_schemas im) ->
   (forall es, walk_source_schemas anns = Ok es -> forall k, In k (entity_roots es) -> present (im_schemas im) k) ->
   methods_from_source true (with_roots im []) api = Ok ms ->
   Forall wf_client_method ms ->
@@ -147,6 +155,30 @@ Theorem C16_chain_with_entities_partial : forall im anns api ms,
     /\ cr_swagger r = Ok tt.
 Proof. exact chain_with_entities. Qed.
 Print Assumptions C16_chain_with_entities_partial.
+
+
+(* ---- flattened object fields (ObjectSchema.ClientProperties) ------------------------------------ *)
+(* the reference walk sees an object through its client properties: its own properties that are not
+   flattened fields, and the client properties of every object it flattens *)
+Theorem C16_client_props_keep : forall g f ps cps p,
+  client_props (S f) g ps = Some cps -> In p ps -> is_flat (p_ty p) = None -> In p cps.
+Proof. exact client_props_keeps. Qed.
+Print Assumptions C16_client_props_keep.
+
+Theorem C16_client_props_flatten : forall g f ps cps p k qs cqs,
+  client_props (S f) g ps = Some cps -> In p ps -> is_flat (p_ty p) = Some k ->
+  lookup g k = Some (SObject qs) -> client_props f g qs = Some cqs -> incl cqs cps.
+Proof. exact client_props_flattens. Qed.
+Print Assumptions C16_client_props_flatten.
+
+(* the collected schema set is closed under the references of its members' client properties: in
+   particular what a flattened child refers to is collected with the host *)
+Theorem C16_collected_closed : forall (im : image) (ms : list client_method) ks h s c,
+  collect_refs im ms = Ok ks -> In h ks ->
+  lookup (cenv (im_schemas im)) h = Some s -> In c (succs s) -> present (cenv (im_schemas im)) c ->
+  In c ks.
+Proof. exact collected_closed. Qed.
+Print Assumptions C16_collected_closed.
 
 (* ---- source API: exactly the declared services and methods, declared verb and path ------- *)
 (* buildMethod on what the compiler emits for one method: accepted, verb and path recovered.
@@ -252,6 +284,7 @@ Proof. exact list_walk_total. Qed.
 Print Assumptions C16_list_walk_total.
 
 Theorem C16_list_method_total : forall (im : image) sub svc (m : src_method) req resp root,
+  flat_free (im_schemas im) ->
   all_refs_link (im_schemas im) = true ->
   lookup (im_schemas im) (sub_pkg im sub, sm_req m) = Some (SObject req) ->
   str_eqb (sm_resp m) HTTPBODY_SHORT = false ->
@@ -372,7 +405,7 @@ Proof.
     { unfold wf_env. apply Forall_forall. intros ks Hks. vm_compute in Hks.
       repeat (destruct Hks as [<-|Hks]; [unfold wf_props; cbn [snd schema_props]; repeat (apply Forall_cons; [vm_compute; reflexivity|]); apply Forall_nil|]).
       contradiction. }
-    intros k [<-|[]]. vm_compute. discriminate.
+    apply (flat_free_b_sound). vm_compute. reflexivity.
 Qed.
 
 (* a list method over a self-recursive item object: the chain succeeds and the list request carries
